@@ -73,6 +73,30 @@ func StartPlayback(recDir, pathName, sock string) (*Playback, error) {
 	return p, nil
 }
 
+// StartPlaybackPaths is StartPlayback for several paths below one recording directory
+// (set PathName before every request).
+func StartPlaybackPaths(recDir string, pathNames []string, sock string) (*Playback, error) {
+	p := &Playback{RecDir: recDir, PathName: pathNames[0]}
+	confs := map[string]*conf.Path{}
+	for _, n := range pathNames {
+		// one directory tree per path: the walk of one request never sees another path's files
+		confs[n] = &conf.Path{Name: n, RecordPath: filepath.Join(recDir, n, PathFormat), RecordFormat: conf.RecordFormatFMP4}
+	}
+	p.srv = &playback.Server{
+		Address:      "unix://" + sock,
+		ReadTimeout:  conf.Duration(60 * time.Second),
+		WriteTimeout: conf.Duration(60 * time.Second),
+		PathConfs:    confs,
+		AuthManager:  test.NilAuthManager,
+		Parent:       test.NilLogger,
+	}
+	if err := p.srv.Initialize(); err != nil {
+		return nil, err
+	}
+	p.hc, p.tr = unixClient(sock)
+	return p, nil
+}
+
 // Close stops the server.
 func (p *Playback) Close() {
 	p.tr.CloseIdleConnections()
